@@ -22,6 +22,24 @@ type C01Case struct {
 	// Ordinary: the document comes from the grammar of ordinary documents (gen.GenCalmDoc): a hang there is
 	// identified apart from the listed hangs of the full grammar
 	Ordinary bool `json:"ordinary,omitempty"`
+	// ImportPrefix: an invalid or unsupported rule written before the @import of a sheet (see c01ImportPair)
+	ImportPrefix string `json:"import_prefix,omitempty"`
+	Imported     string `json:"imported,omitempty"`
+}
+
+// rules that are dropped (invalid selector, unknown at-rule, unsupported pseudo-element): they are not
+// "valid rules", so an @import that follows them is still in its place at the top of the sheet
+var c01SkippedRules = []string{"p::selection{color:red}", "p::unknown-pseudo{color:red}", "span:unknown-class{color:red}", "@unknown-rule x{a:b}", "@unknown;", "p::placeholder{color:blue}", "p::selection{}", "::backdrop{color:red} p::cue{color:red}"}
+
+var c01ImportedSheets = []string{".h{display:none} p::before{content:'GEN '}", "p{width:60px}", ".h{display:none}", "p::after{content:' tail'} .h{break-before:page}", "body{font-size:30px} p{width:200px}"}
+
+// c01ImportPair: the same document with and without a skipped rule before its @import
+func c01ImportPair(c *C01Case) (base, variant string) {
+	body := `<p>first paragraph of the text</p><p class="h">second paragraph that is hidden or moved</p><p>third</p>`
+	imp := `@import url("data:text/css,` + strings.NewReplacer("{", "%7B", "}", "%7D", " ", "%20", "#", "%23", "'", "%27").Replace(c.Imported) + `");`
+	head := `<!DOCTYPE html><html><head><style>@page{size:300px 200px;margin:10px}</style><style>`
+	return head + imp + ` p{margin:0}</style></head><body>` + body + `</body></html>`,
+		head + c.ImportPrefix + " " + imp + ` p{margin:0}</style></head><body>` + body + `</body></html>`
 }
 
 var c01Injections = []string{
@@ -50,6 +68,13 @@ func c01Gen(t *rapid.T, tier Tier) interface{} {
 	}
 	if rapid.IntRange(0, 4).Draw(t, "ordinary") == 0 {
 		return &C01Case{Doc: gen.GenCalmDoc(t), Ordinary: true}
+	}
+	if rapid.IntRange(0, 24).Draw(t, "importpair") == 0 {
+		c := &C01Case{ImportPrefix: rapid.SampledFrom(c01SkippedRules).Draw(t, "skipped"), Imported: rapid.SampledFrom(c01ImportedSheets).Draw(t, "imported")}
+		c.Doc.Engine = rapid.SampledFrom([]string{"pango", "gotext"}).Draw(t, "engine")
+		c.Doc.Zoom = 1
+		c.Doc.HTML, _ = c01ImportPair(c)
+		return c
 	}
 	c := &C01Case{Doc: gen.GenDoc(t, depth, rapid.IntRange(0, 9).Draw(t, "rtl") == 0)}
 	if rapid.IntRange(0, 3).Draw(t, "meta") == 0 {
@@ -172,6 +197,18 @@ func c01Check(ci interface{}) Verdict {
 		return Verdict{Excluded: "rejected-by-NewHTML", Labels: []string{"rejected"}}
 	}
 	labels, nElems := c01Labels(r, c.Doc)
+	if c.ImportPrefix != "" {
+		_, variant := c01ImportPair(c)
+		labels = append(labels, "skipped-rule-before-import")
+		r2, err := wr.Render(variant, opts)
+		if err != nil {
+			return Verdict{Sig: "skip:rejects-document", Msg: fmt.Sprintf("the document is rejected once %q stands before its @import: %v", c.ImportPrefix, err), Labels: labels}
+		}
+		if a, b := c01Texts(r), c01Texts(r2); len(r2.Pages) != len(r.Pages) || a != b {
+			return Verdict{Sig: cleanSigC01("skip:import-lost-after:" + c.ImportPrefix), Msg: fmt.Sprintf("the skipped rule %q written before the @import changes the rendering: %d pages, text %q; without it: %d pages, text %q\n%s", c.ImportPrefix, len(r2.Pages), b, len(r.Pages), a, variant), Labels: labels}
+		}
+		return Verdict{NonTrivial: true, Labels: labels}
+	}
 	if c.Ordinary {
 		labels = append(labels, "ordinary-document")
 	}
